@@ -1593,4 +1593,87 @@ theorem allFired_runs (subgraphs : List (List Rule)) :
   | nil => rfl
   | cons g rest ih => simp only [List.map_cons, allFired, ih, List.flatten_cons, List.map_append]
 
+/-! ### names are a labelling -/
+
+/-- give every rule another name (any function: several rules may get the same one) -/
+def relabel (f : Rule → Str) (r : Rule) : Rule := { r with name := f r }
+
+/-- two outcomes list the same things and store alike -/
+def Final.SameKind (a b : Final) : Prop := a.tally = b.tally ∧ a.stored = b.stored
+
+theorem invoke_relabel (env : Env) (f : Rule → Str) (r : Rule) : invoke env (relabel f r) = invoke env r := rfl
+
+theorem classify_relabel (env : Env) (hc : WFCfg env.cfg) (P : List Comp) (f : Rule → Str) (r : Rule) :
+    (classify env P (relabel f r)).SameKind (classify env P r) := by
+  cases hen : r.enabled with
+  | false =>
+    have h1 : classify env P (relabel f r) = .nothing := by simp [classify, relabel, hen]
+    have h2 : classify env P r = .nothing := by simp [classify, hen]
+    rw [h1, h2]; exact ⟨rfl, rfl⟩
+  | true =>
+    have hen' : (relabel f r).enabled = true := hen
+    rw [classify_enabled env P _ hen', classify_enabled env P r hen]
+    cases hi : ignored P r with
+    | true =>
+      have hi' : ignored P (relabel f r) = true := hi
+      rw [process_ignored env P _ hi', process_ignored env P r hi]; exact ⟨rfl, rfl⟩
+    | false =>
+      have hi' : ignored P (relabel f r) = false := hi
+      cases hm : missingDeps P r with
+      | some m =>
+        have hm' : missingDeps P (relabel f r) = some m := hm
+        rw [process_missing env P _ m hi' hm', process_missing env P r m hi hm,
+          mkResp_of_valid env.limit env.cfg.skipCls sSkip _ _ hc.skip_type (skip_valid env (relabel f r) m hc),
+          mkResp_of_valid env.limit env.cfg.skipCls sSkip _ _ hc.skip_type (skip_valid env r m hc)]
+        simp only [ofMk, finalOfProc]
+        have e1 := observeKind_built_skip env.limit env.cfg.skipCls .none (skipKwargs env (relabel f r) m)
+          (skipKwargs_no_type env (relabel f r) m)
+        have e2 := observeKind_built_skip env.limit env.cfg.skipCls .none (skipKwargs env r m) (skipKwargs_no_type env r m)
+        rw [e1, e2]
+        exact ⟨by simp only [Final.tally], by simp only [Final.stored]⟩
+      | none =>
+        have hm' : missingDeps P (relabel f r) = none := hm
+        rw [process_invoked' env P _ hi' hm', process_invoked' env P r hi hm, invoke_relabel]
+        exact ⟨rfl, rfl⟩
+
+/-- the outcomes of the relabelled rule set, rule by rule, are of the same kind -/
+theorem finals_relabel (env : Env) (hc : WFCfg env.cfg) (f : Rule → Str) (rules : List Rule) (P : List Comp)
+    (r : Rule) (fr : Final) (hm : (r, fr) ∈ finals env P rules) :
+    ∃ f', (relabel f r, f') ∈ finals env P (rules.map (relabel f)) ∧ f'.tally = fr.tally := by
+  induction rules generalizing P with
+  | nil => cases hm
+  | cons x rest ih =>
+    simp only [List.map_cons, finals] at hm ⊢
+    have hk := classify_relabel env hc P f x
+    have hid : (relabel f x).id = x.id := rfl
+    rcases List.mem_cons.mp hm with h | h
+    · cases h
+      exact ⟨_, List.mem_cons_self .., hk.1⟩
+    · rw [hk.2, hid]
+      obtain ⟨f', h1, h2⟩ := ih _ h
+      exact ⟨f', List.mem_cons_of_mem _ h1, h2⟩
+
+theorem relabel_ids (f : Rule → Str) (rules : List Rule) : (rules.map (relabel f)).map (·.id) = rules.map (·.id) := by
+  induction rules with
+  | nil => rfl
+  | cons x rest ih => simp only [List.map_cons, ih]; rfl
+
+theorem fresh_relabel (seed : List Comp) (f : Rule → Str) (rules : List Rule) (h : Fresh seed rules) :
+    Fresh seed (rules.map (relabel f)) := by
+  refine ⟨by rw [relabel_ids]; exact h.1, ?_⟩
+  intro r hr
+  obtain ⟨x, hx, rfl⟩ := List.mem_map.mp hr
+  exact h.2 x hx
+
+theorem finals_ids (env : Env) (P : List Comp) (rules : List Rule) :
+    (finals env P rules).map (·.1.id) = rules.map (·.id) := by
+  have h3 : ((finals env P rules).map (·.1)).map (·.id) = rules.map (·.id) := by rw [finals_map_fst]
+  rw [List.map_map] at h3
+  exact h3
+
+theorem tally_run_absent (env : Env) (seed : List Comp) (rules : List Rule) (h : Fresh seed rules) (id : Comp)
+    (hn : id ∉ (finals env seed rules).map (·.1.id)) : tally (run env seed rules) id = Tally.zero := by
+  rw [run_eq env seed rules h, tally_applyAll_absent _ _ _ hn, tally_init]
+
+
 end IV.Rules
